@@ -48,6 +48,9 @@ type Case struct {
 	// encoding is (whatever a decoder learns about a type from its first,
 	// failing, attempt must not make it lenient afterwards)
 	CutsFirst bool `json:"cuts_first,omitempty"`
+	// Source: the concrete type of the reader the decoder is given (hio.SourceKinds;
+	// empty: the fragmenting reader)
+	Source string `json:"source,omitempty"`
 }
 
 // bigData builds the encoding of a big case: a message with a BigLen byte
@@ -92,7 +95,7 @@ func genCase(t *rapid.T) Case {
 	vo.MaxLen = 3
 	vo.DynDepth = 2
 	plan := gen.FragPlan().Draw(t, "plan")
-	c := Case{Decoder: dec, Chunks: plan.Chunks, EOFWith: plan.EOFWith}
+	c := Case{Decoder: dec, Chunks: plan.Chunks, EOFWith: plan.EOFWith, Source: rapid.SampledFrom(hio.SourceKinds).Draw(t, "source")}
 	var ty *ref.Type
 	var v interface{}
 	switch dec {
@@ -151,7 +154,7 @@ func genCase(t *rapid.T) Case {
 // ends, and at a few random places.
 func genBig(t *rapid.T) Case {
 	plan := gen.FragPlan().Draw(t, "plan")
-	c := Case{Decoder: rapid.SampledFrom([]string{"message", "message", "value"}).Draw(t, "bigdecoder"), Chunks: plan.Chunks, EOFWith: plan.EOFWith}
+	c := Case{Decoder: rapid.SampledFrom([]string{"message", "message", "value"}).Draw(t, "bigdecoder"), Chunks: plan.Chunks, EOFWith: plan.EOFWith, Source: rapid.SampledFrom(hio.SourceKinds).Draw(t, "source")}
 	if c.Decoder == "value" {
 		c.Sig = rapid.SampledFrom([]string{"r", "s"}).Draw(t, "bigkind")
 	}
@@ -264,7 +267,8 @@ func checkCase(c Case) error {
 	}
 	// the complete encoding must be accepted (otherwise the cuts prove nothing)
 	complete := func() error {
-		if err, p := decode(c, ty, hio.NewFragReader(data, c.Chunks, c.EOFWith)); err != nil || p != nil {
+		src, _ := hio.Source(c.Source, data, c.Chunks, c.EOFWith)
+		if err, p := decode(c, ty, src); err != nil || p != nil {
 			return vt.Violationf("C08:"+c.Decoder+":complete-rejected", "%s decoder rejects the complete encoding of %s %s: %v %v", c.Decoder, c.Sig, c.Desc, err, p)
 		}
 		return nil
@@ -286,7 +290,7 @@ func checkCase(c Case) error {
 		if k < 0 || k >= len(data) {
 			continue
 		}
-		r := hio.NewFragReader(data[:k], c.Chunks, c.EOFWith)
+		r, _ := hio.Source(c.Source, data[:k], c.Chunks, c.EOFWith)
 		err, p := decode(c, ty, r)
 		idx, sp, _ := spanAt(spans, k)
 		if p != nil {
@@ -312,7 +316,11 @@ func checkCase(c Case) error {
 	}
 	vt.LabelN("cuts-strictly-inside-a-later-field", int64(nontrivialCuts))
 	nontrivial := len(spans) >= 2 && nontrivialCuts > 0
-	vt.Case(nontrivial, fmt.Sprintf("%s|%s|%s|%d|%v", c.Decoder, c.Sig, c.Hex, c.BigLen, c.Cuts), "decoder="+c.Decoder)
+	srcKind := c.Source
+	if srcKind == "" {
+		srcKind = "frag"
+	}
+	vt.Case(nontrivial, fmt.Sprintf("%s|%s|%s|%d|%v", c.Decoder, c.Sig, c.Hex, c.BigLen, c.Cuts), "decoder="+c.Decoder, "source="+srcKind)
 	if nontrivial {
 		vt.Sample("encoding", map[string]interface{}{"decoder": c.Decoder, "sig": c.Sig, "value": c.Desc, "hex": c.Hex, "cuts": len(cuts)})
 	}
